@@ -9,7 +9,7 @@ set -u
 wt="$1"; out="$wt/_out"
 head="$(git -C /repo rev-parse HEAD)"
 cd "$wt" || exit 2
-git checkout -q -- . ; git clean -fdq -e _out -e rust/target ; git checkout -q --detach "$head" || exit 2
+git reset -q ; git checkout -q -- . ; git clean -fdq -e _out -e rust/target ; git checkout -q --detach "$head" || exit 2
 demo_cmd="$(python3 -c "import json;print(json.load(open('$out/meta.json'))['demo_test'])")"
 # normalise: run from rust/ dir
 demo_cmd="${demo_cmd#cd rust && }"; demo_cmd="${demo_cmd#cd */rust && }"
